@@ -18,6 +18,7 @@ import (
 	"io"
 	"net"
 	"os"
+	"runtime"
 	"strconv"
 	"strings"
 	"sync"
@@ -67,7 +68,10 @@ type Attempt struct {
 	Dial string `json:"dial,omitempty"`
 }
 
-// Act is "do What (close | cancel) when the subscriber reaches Gate".
+// Act is "do What (close | cancel | poll | pollstall) when the subscriber reaches
+// Gate": poll / pollstall call Poll() from a goroutine of their own, with a target
+// that answers the round at once / does not answer (the round stays outstanding in
+// Recv until the transport is closed or its context cancelled).
 // Gates: before, race, end, init:k, sub:k, recv:k:i, h:k:n (n-th handler
 // invocation of attempt k), disc:k, reset:k, sleep:k (Delay microseconds after
 // the disconnect callback of attempt k returned, not parked), postsub:k (Delay
@@ -201,6 +205,9 @@ type scen struct {
 	cancelCalled bool // under mu
 	ending       bool // under mu: the first session is over, late acts are dropped
 	inThen       int32
+	pollAnswers  bool            // under mu: does the target answer the poll round in progress
+	pollOut      chan struct{}   // under mu: closed once that round is outstanding in Recv
+	poller       func() error    // the client's Poll
 	thenClosing  bool            // under mu: a Close started by asyncClose is in progress
 	pending      []chan struct{} // under mu: Close calls started by asyncClose
 	lastDisc     int64           // unix nanos at which the disconnect callback last returned
@@ -280,6 +287,11 @@ func (s *scen) act(a Act, parked bool) {
 		// a gate reached by a later Subscribe call of a bare client: Close does not
 		// wait for Subscribe there, so it is simply made inline
 		s.asyncClose(strings.HasPrefix(a.Gate, "implclose"))
+		return
+	}
+	switch a.What {
+	case "poll", "pollstall":
+		s.doPoll(a.What == "poll")
 		return
 	}
 	switch a.What {
@@ -376,6 +388,7 @@ type impl struct {
 	once   sync.Once
 	ncl    int32
 	failed int32 // a Recv has returned an error
+	pollG  int64 // goroutine in which Poll() was last called on this transport
 }
 
 func factory(ctx context.Context, d client.Destination) (client.Impl, error) {
@@ -554,6 +567,9 @@ func (m *impl) Subscribe(ctx context.Context, q client.Query) error {
 }
 
 func (m *impl) Recv() error {
+	if g := atomic.LoadInt64(&m.pollG); g != 0 && g == goid() {
+		return m.pollRound()
+	}
 	err := m.recv()
 	if err != nil && err != io.EOF && err != client.ErrStopReading {
 		atomic.StoreInt32(&m.failed, 1)
@@ -613,6 +629,10 @@ func (m *impl) recv() error {
 			}
 		} else if !m.s.closeWasCalled() {
 			m.s.act(Act{What: "close"}, false)
+		} else if !m.s.c.reconnect() && atomic.LoadInt32(&m.s.closeFailed) != 0 {
+			// the bare client's Close came before the transport was installed
+			// (ErrClientInit, no effect): close again now
+			go m.s.asyncClose(false)
 		}
 		select {
 		case <-m.closed:
@@ -668,7 +688,47 @@ func (m *impl) Close() error {
 	return err
 }
 
-func (m *impl) Poll() error { return nil }
+// goid returns the id of the calling goroutine (the poll round's Recv is told
+// from the subscriber's by the goroutine it runs in).
+func goid() int64 {
+	var buf [64]byte
+	n := runtime.Stack(buf[:], false)
+	f := strings.Fields(string(buf[:n]))
+	if len(f) < 2 {
+		return -1
+	}
+	id, _ := strconv.ParseInt(f[1], 10, 64)
+	return id
+}
+
+func (m *impl) Poll() error {
+	atomic.StoreInt64(&m.pollG, goid())
+	return nil
+}
+
+// pollRound is Recv as called by BaseClient.Poll's read round.
+func (m *impl) pollRound() error {
+	m.s.mu.Lock()
+	answers := m.s.pollAnswers
+	out := m.s.pollOut
+	m.s.mu.Unlock()
+	if answers {
+		return client.ErrStopReading
+	}
+	if out != nil {
+		select {
+		case <-out:
+		default:
+			close(out)
+		}
+	}
+	select {
+	case <-m.ctx.Done():
+	case <-m.closed:
+	case <-m.s.dead:
+	}
+	return errImpl
+}
 
 // ---------------------------------------------------------------------------
 // one scenario
@@ -784,10 +844,16 @@ func runCase(c Case) []Ev {
 			})
 	}
 	s.closer = cl.Close
+	s.poller = cl.Poll
 	ctx, cancel := context.WithCancel(context.Background())
 	s.parentCancel = cancel
 	defer cancel()
 	q := client.Query{Addrs: []string{s.id}, Type: client.Stream, Queries: []client.Path{{"*"}}, NotificationHandler: handler}
+	for _, a := range c.Ops {
+		if strings.HasPrefix(a.What, "poll") {
+			q.Type = client.Poll // BaseClient.Poll insists on a Poll query
+		}
+	}
 
 	// "before": the act completes before Subscribe is called
 	for idx, a := range c.Ops {
@@ -871,6 +937,23 @@ func runCase(c Case) []Ev {
 		case <-s.closeDone:
 		case <-timer.C:
 			return hang()
+		}
+	}
+	// Poll calls the acts made must have returned as well
+	for {
+		s.mu.Lock()
+		ws := s.pending
+		s.pending = nil
+		s.mu.Unlock()
+		if len(ws) == 0 {
+			break
+		}
+		for _, w := range ws {
+			select {
+			case <-w:
+			case <-timer.C:
+				return hang()
+			}
 		}
 	}
 	// further calls on the same client
@@ -999,6 +1082,45 @@ func (s *scen) asyncClose(short bool) {
 	s.mu.Unlock()
 }
 
+// doPoll calls Poll() from a goroutine of its own and waits until the round is
+// outstanding in the transport's Recv or Poll has returned.
+func (s *scen) doPoll(answers bool) {
+	s.mu.Lock()
+	if s.ending || s.pollOut != nil {
+		s.mu.Unlock()
+		return
+	}
+	out := make(chan struct{})
+	s.pollAnswers, s.pollOut = answers, out
+	if !s.frozen {
+		s.trace = append(s.trace, Ev{T: "pollcall", OK: answers})
+	}
+	s.mu.Unlock()
+	done := make(chan struct{})
+	go func() {
+		defer close(done)
+		defer func() {
+			if r := recover(); r != nil {
+				s.log(Ev{T: "panic"})
+			}
+		}()
+		err := s.poller()
+		s.log(Ev{T: "pollret", OK: err == nil})
+		s.mu.Lock()
+		s.pollOut = nil
+		s.mu.Unlock()
+	}()
+	select {
+	case <-out:
+	case <-done:
+	case <-s.dead:
+	case <-time.After(time.Second):
+	}
+	s.mu.Lock()
+	s.pending = append(s.pending, done)
+	s.mu.Unlock()
+}
+
 // thenCancel cancels the caller's context during the later calls (the only
 // thing that stops a bare client whose new Subscribe blocks).
 func (s *scen) thenCancel() {
@@ -1078,6 +1200,10 @@ func evTerm(e Ev) string {
 		return "ESubRet ROther"
 	case "closeret":
 		return "ECloseRet " + vh.Bool(e.OK)
+	case "pollcall":
+		return "EPollCall " + vh.Bool(e.OK)
+	case "pollret":
+		return "EPollRet " + vh.Bool(e.OK)
 	case "hang":
 		return "EHang"
 	case "corrupt":
@@ -1553,6 +1679,42 @@ func main() {
 					for pi, g := range points {
 						inner := []string{"fake", "gnmi"}[(si+ci+pi)%2]
 						cs = append(cs, Case{Family: "closefault", Kind: kind, Inner: inner, Attempts: as, Ops: []Act{{Gate: g, What: "close"}}, Then: then})
+					}
+				}
+			}
+		}
+		// the other exported calls concurrent with Close: a Poll round (answered, or
+		// outstanding in Recv on a stalled target) with Close / cancel from another
+		// goroutine, on every kind of client
+		pollScripts := [][]Attempt{
+			{ok(msg(), block())},
+			{ok(msg(), eof()), ok(msg(), msg(), block())},
+			{ok(msg(), blockq())},
+			{ok(msg(), msg(), msg(), msg(), block())},
+		}
+		for _, kind := range kinds {
+			rc := strings.HasPrefix(kind, "re")
+			for si, as := range pollScripts {
+				last := len(as) - 1
+				if !rc {
+					as = as[last:]
+					last = 0
+				}
+				li := len(as[last].Items) - 1
+				points := []string{fmt.Sprintf("recv:%d:%d", last, li), fmt.Sprintf("recv:%d:0", last), fmt.Sprintf("h:%d:1", last), fmt.Sprintf("init:%d", last), fmt.Sprintf("postsub:%d", last)}
+				for pi, g := range points {
+					for _, pw := range []string{"pollstall", "poll"} {
+						for _, stop := range []string{"close", "cancel", ""} {
+							if stop == "cancel" && as[last].Items[li].K == "blockq" {
+								continue // a quiet stream is not woken by the context
+							}
+							ops := []Act{{Gate: g, What: pw}}
+							if stop != "" {
+								ops = append(ops, Act{Gate: g, What: stop})
+							}
+							inner := []string{"fake", "gnmi"}[(si+pi)%2]
+							cs = append(cs, Case{Family: "poll", Kind: kind, Inner: inner, Attempts: as, Ops: ops})
+						}
 					}
 				}
 			}
